@@ -36,6 +36,7 @@ def generate(specdir, name, cfgd, simulate=None, depth=None, tlc_seed=None, time
             steps[-1]["x"], steps[-1]["n"] = rec["l"]["x"], rec["l"]["n"]
             if "alt" in rec["l"]:
                 steps[-1]["alt"] = rec["l"]["alt"]
+            steps[-1]["q"] = bool(rec["l"].get("q", False))
         if simulate is not None:
             # the simulator evaluates the emission constraint on every successor of the last state: all of them are
             # behaviours of the specification; keep one per simulated behaviour
